@@ -3,7 +3,7 @@ package c01
 import (
 	"fmt"
 
-	"github.com/cloudwego/hertz/pkg/app/server"
+	hserver "github.com/cloudwego/hertz/pkg/app/server"
 	"github.com/cloudwego/hertz/pkg/common/config"
 	"os"
 	"testing"
@@ -228,7 +228,7 @@ func netServer(t interface{ Fatalf(string, ...interface{}) }, transport string, 
 	if transport == "netpoll-idle0" {
 		// IdleTimeout 0: the connection goes back to the poller after every request
 		tr = "netpoll"
-		cfg.Extra = []config.Option{server.WithIdleTimeout(0)}
+		cfg.Extra = []config.Option{hserver.WithIdleTimeout(0)}
 	}
 	s, err := srv.NewNetEcho(cfg, tr)
 	if err != nil {
